@@ -12,18 +12,28 @@ legs: MC   TLC checks mechanism (conversions; transfer; summarize | truncate; co
            clauses (all declarative clauses, every clause subset incl. the empty one) and the statement returns the rows of
            its own report the subquery selects.  Non-vacuity: a subquery inheriting the clauses of the enclosing statement
            when its FROM clause has none, and a statement ranging over the table of its subquery, must be rejected.
+           Entry points (doors): the statement arrives through the DB-API, the shell (typed / bean-query command line) or as a
+           named query run with .run; the shell's parse hook (action Hook, shell.py BQLShell.parse) rewrites the parsed FROM
+           clause before the compiler sees it.  All invariants are stated of Presented(clauses written, door): the clauses
+           written, through every door (.run adds CLOSE ON <date of the query directive> to a FROM clause without CLOSE).
+           Non-vacuity: a hook that rebuilds the FROM clause without CLEAR, and a hook that overrides a written CLOSE, must be
+           rejected.
       S2C  TLC emits (ledger, clauses, filter) with what the statement determines of the returned rows (original postings
            kept, totals of the non-Equity positions, value at cost of all rows, every transaction balanced); the driver
            builds the ledger with beancount.core.data, runs SELECT / BALANCES / JOURNAL through the API and PRINT through
            the shell (output re-read with beancount's parser) and compares the projections.  Nested statements (SELECT and
            BALANCES; subqueries whose selection the statement determines: no clause + any filter, clauses + a filter that
            passes no synthetic transaction, CLOSE before OPEN inside the subquery) are emitted and compared the same way.
+           Door cases (every clause subset x shell / .run with the directive dated before, on, after the entries) go through
+           BQLShell.onecmd -- the statement text, or `.run NAME` of a query directive holding it -- for SELECT, BALANCES and
+           JOURNAL; the rows are taken where the shell fetches them from its connection (rendering is C16's).
       C2S  the beancount example ledger and seeded random ledgers (price conversions, lots at cost, decimals) are run
            through several (d, e, clauses) configurations each; the ledger's postings and the returned rows are logged
            and Trace_Summarize makes TLC evaluate the declarative clauses on every logged case (totals of the full ledger
            are computed by the spec from the logged postings).  Nested statements over pairs of the configurations run on
            the same ledger are logged too; TLC judges them (ScopeOK) against the rows logged for the statement's clauses
-           and for the subquery's clauses.
+           and for the subquery's clauses.  Statements given through the shell and as named queries are logged with their door;
+           TLC judges them as the report of the clauses they present there.
 """
 import collections
 import datetime
@@ -297,37 +307,17 @@ class Observed:
         self.msg = msg
 
 
-def run_select(conn, st):
-    import beanquery
-    try:
-        cur = conn.execute(parsed(st) if isinstance(st, str) else st)
-        return Observed(rows_of_select(cur.fetchall()))
-    except beanquery.CompilationError as ex:
-        return Observed(err='CompilationError', msg=str(ex))
-    except beanquery.ParseError as ex:
-        return Observed(err='ParseError', msg=str(ex))
-    except Exception as ex:  # noqa
-        return Observed(err=type(ex).__name__, msg=str(ex))
-
-
-def run_journal(conn, st):
+def rows_of_journal(fetched):
     """JOURNAL rows: date, flag, payee, narration, account, position, balance -> rows without price (weight unknown)"""
-    import beanquery
-    try:
-        cur = conn.execute(parsed(st) if isinstance(st, str) else st)
-        out = []
-        for (date, flag, payee, narration, account, pos, balance) in cur.fetchall():
-            c = pos.cost
-            r = project(0, date, flag, narration, account, pos.units.number, pos.units.currency,
-                        getattr(c, 'number', None), getattr(c, 'currency', None), getattr(c, 'date', None),
-                        getattr(c, 'label', None), None)
-            r['balance'] = totals_of_inventory(balance)
-            out.append(r)
-        return Observed(out)
-    except beanquery.CompilationError as ex:
-        return Observed(err='CompilationError', msg=str(ex))
-    except Exception as ex:  # noqa
-        return Observed(err=type(ex).__name__, msg=str(ex))
+    out = []
+    for (date, flag, payee, narration, account, pos, balance) in fetched:
+        c = pos.cost
+        r = project(0, date, flag, narration, account, pos.units.number, pos.units.currency,
+                    getattr(c, 'number', None), getattr(c, 'currency', None), getattr(c, 'date', None),
+                    getattr(c, 'label', None), None)
+        r['balance'] = totals_of_inventory(balance)
+        out.append(r)
+    return out
 
 
 def totals_of_inventory(inv):
@@ -340,27 +330,142 @@ def totals_of_inventory(inv):
     return {k: v for k, v in t.items() if v}
 
 
-def run_balances(conn, st):
+def rows_of_balances(fetched):
     """BALANCES rows: account, sum(position) -> {(account, currency, lot): units}"""
+    tot = {}
+    for account, inv in fetched:
+        for (c, lot), u in totals_of_inventory(inv).items():
+            tot[(account, c, lot)] = norm(tot.get((account, c, lot), D(0)) + u)
+    return tot
+
+
+PROJECTIONS = {'select': rows_of_select, 'balances': rows_of_balances, 'journal': rows_of_journal}
+
+
+# ---- entry points (doors): the DB-API, the shell (a statement typed at the prompt / given on the bean-query command line:
+# BQLShell.onecmd), a named query of the ledger run with .run (the statement is the text of a query directive)
+API = {'ep': 'api', 'q': 0}
+SHELL = {'ep': 'shell', 'q': 0}
+
+
+def door_of(x):
+    return x.get('door') or API
+
+
+def door_key(via, door):
+    return via if door['ep'] == 'api' else '%s@%s' % (via, door['ep'])
+
+
+class _TapCursor:
+    """the cursor the shell renders from; keeps the rows it handed out (the rendering itself is C16's)"""
+    def __init__(self, cur):
+        self._cur = cur
+        self.rows = None
+
+    @property
+    def description(self):
+        return self._cur.description
+
+    def fetchall(self):
+        self.rows = self._cur.fetchall()
+        return self.rows
+
+    def __iter__(self):
+        self.rows = self._cur.fetchall()
+        return iter(self.rows)
+
+    def __getattr__(self, name):
+        return getattr(self._cur, name)
+
+
+class _Tap:
+    """stands between the shell and its connection: everything is delegated; the rows of the last execute() are kept, and
+    parse() of a text the driver has already built the syntax tree of (a fresh tree per call: the shell may rewrite what it
+    parsed) skips TatSu (20-100 ms per statement)"""
+    def __init__(self, conn):
+        self._conn = conn
+        self.cursor = None
+        self.trees = {}
+
+    def __getattr__(self, name):
+        return getattr(self._conn, name)
+
+    def parse(self, text):
+        st = self.trees.pop(text, None)
+        return st if st is not None else self._conn.parse(text)
+
+    def execute(self, st, *args, **kwargs):
+        self.cursor = None
+        self.cursor = _TapCursor(self._conn.execute(st, *args, **kwargs))
+        return self.cursor
+
+
+_DOOR_SHELL = None
+
+
+def fetch_through(conn, st, text, door, datefn):
+    """the rows the statement yields when given through the door (st: text or a syntax tree of it built for this call)"""
+    global _DOOR_SHELL
+    if door['ep'] == 'api':
+        return conn.execute(parsed(st) if isinstance(st, str) else st).fetchall()
+    from beanquery import shell
+    from beancount.core import data
+    if _DOOR_SHELL is None:
+        _DOOR_SHELL = shell.BQLShell(None, io.StringIO(), format='csv')
+    sh = _DOOR_SHELL
+    tap = sh.context = _Tap(conn)
+    sh.outfile = io.StringIO()
+    if not isinstance(st, str):
+        tap.trees[text] = st
+    try:
+        if door['ep'] == 'shell':
+            sh.onecmd(text)
+        elif door['ep'] == 'run':
+            sh.queries = {'c13': data.Query(data.new_metadata('<c13>', 0), datefn(door['q']), 'c13', text)}
+            sh.onecmd('.run c13')
+        else:
+            raise MachineryError('unknown entry point %r' % (door,))
+    finally:
+        sh.queries = {}
+    if tap.cursor is None or tap.cursor.rows is None:
+        raise MachineryError('the shell did not execute %r' % (text,))
+    return tap.cursor.rows
+
+
+def run_statement(conn, via, st, text=None, door=API, datefn=None):
+    """SELECT / BALANCES / JOURNAL through a door -> Observed (projected rows, or the exception class on the error path)"""
     import beanquery
     try:
-        cur = conn.execute(parsed(st) if isinstance(st, str) else st)
-        tot = {}
-        for account, inv in cur.fetchall():
-            for (c, lot), u in totals_of_inventory(inv).items():
-                tot[(account, c, lot)] = norm(tot.get((account, c, lot), D(0)) + u)
-        return Observed(tot)
+        return Observed(PROJECTIONS[via](fetch_through(conn, st, text, door, datefn)))
+    except MachineryError:
+        raise
     except beanquery.CompilationError as ex:
         return Observed(err='CompilationError', msg=str(ex))
+    except beanquery.ParseError as ex:
+        return Observed(err='ParseError', msg=str(ex))
     except Exception as ex:  # noqa
         return Observed(err=type(ex).__name__, msg=str(ex))
+
+
+def run_select(conn, st, text=None, door=API, datefn=None):
+    return run_statement(conn, 'select', st, text, door, datefn)
+
+
+def run_journal(conn, st, text=None, door=API, datefn=None):
+    return run_statement(conn, 'journal', st, text, door, datefn)
+
+
+def run_balances(conn, st, text=None, door=API, datefn=None):
+    return run_statement(conn, 'balances', st, text, door, datefn)
 
 
 _SHELL = None
 
 
-def run_print(conn, st):
+def run_print(conn, st, text=None, door=SHELL, datefn=None):
     """PRINT through the shell in batch mode (outfile = buffer); the output is re-read with beancount's parser"""
+    if door['ep'] == 'run':
+        raise MachineryError('PRINT as a named query is outside the check')
     global _SHELL
     from beanquery import shell
     import beanquery
@@ -470,6 +575,8 @@ def judge_s2c(ctx, case, keys, via, obs, leg='S2C'):
     ck = case_key(case)
     nested = sub_of(case)['on']
     info = {'case': case, 'via': via}
+    kind = via                              # what the statement is; via: the statement @ the door it was given through
+    via = door_key(via, door_of(case))
     if case['status'] == 'rejected':
         if obs.err == 'CompilationError':
             return True
@@ -484,7 +591,7 @@ def judge_s2c(ctx, case, keys, via, obs, leg='S2C'):
         return False
     kept, tot, val = expect_of(case, keys)
     ok = True
-    if via == 'balances':
+    if kind == 'balances':
         if case['cmp']:
             got = {k: v for k, v in obs.rows.items() if root_of(k[0]) != 'Q'}
             if got != tot:
@@ -493,7 +600,7 @@ def judge_s2c(ctx, case, keys, via, obs, leg='S2C'):
                 ok = False
         return ok
     rows = obs.rows
-    with_price = via != 'journal'
+    with_price = kind != 'journal'
     exp_kept = kept if with_price else [k[:7] + (None,) for k in kept]
     if kept_of(rows, with_price) != exp_kept:
         ctx.violation('kept:%s:%s:%s' % (via, ck, c['filter']['n']), 'original postings inside [d, e), unchanged and in order',
@@ -521,7 +628,7 @@ def judge_s2c(ctx, case, keys, via, obs, leg='S2C'):
             ctx.violation('balance:%s:%s:%s' % (via, ck, c['filter']['n']), 'every returned transaction balances by weight',
                           info, leg, [], ub)
             ok = False
-    if via == 'journal':
+    if kind == 'journal':
         # the register's last running balance is the sum of the rows (C12 / C14 own the running balance itself)
         if rows:
             run = collections.defaultdict(D)
@@ -564,8 +671,8 @@ def replay_case(ctx, case, keys, vias, leg='S2C', as_text=True):
     conn = connect(entries)
     ok = True
     for via in vias:
-        st, _ = statement(via, case['c'], day, as_text or via == 'print', sub_of(case))      # PRINT always as text through the shell
-        obs = RUNNERS[via](conn, st)
+        st, text = statement(via, case['c'], day, as_text or via == 'print', sub_of(case))   # PRINT always as text through the shell
+        obs = RUNNERS[via](conn, st, text, door_of(case) if via != 'print' else SHELL, day)
         ok = judge_s2c(ctx, case, keys, via, obs, leg) and ok
     return ok
 
@@ -587,9 +694,13 @@ def _s2c_worker(args):
     n_stmt = collections.Counter()
     for i, case in enumerate(cases):
         vias = ['select']
+        through = door_of(case)['ep']
         if sub_of(case)['on']:                    # JOURNAL and PRINT have no WHERE clause
             if (i + offset) % (bj_every // 2) == 0:
                 vias.append('balances')
+        elif through != 'api':                    # the shell's parse hook handles SELECT, BALANCES and JOURNAL: all three
+            if (i + offset) % 4 == 0:
+                vias += ['balances', 'journal']
         else:
             if (i + offset) % print_every == 0:
                 vias.append('print')
@@ -600,6 +711,8 @@ def _s2c_worker(args):
         replay_case(col, case, keys, vias, as_text=as_text)
         for v in vias:
             n_stmt[v] += 1
+            if through != 'api':
+                n_stmt['%s@%s' % (v, through)] += 1
         n_stmt['as_text'] += as_text or 'print' in vias
     return col.items, dict(n_stmt)
 
@@ -794,11 +907,21 @@ def pick_configs(rng, entries, n, with_rejected=True):
     return out
 
 
-def record_ledger(ctx, f, lid, entries, opts, configs, exact, print_every, filter_every, counters, n_nested=0):
+def presented(c, door):
+    """driver-side bookkeeping only (which recorded case has the same clauses; TLC judges with Summarize!Presented)"""
+    if door['ep'] == 'run' and c['close'] < 0 and (has_clauses(c) or c['filter']['n'] != 'none'):
+        return dict(c, close=door['q'])
+    return c
+
+
+def record_ledger(ctx, f, lid, entries, opts, configs, exact, print_every, filter_every, counters, n_nested=0, n_doors=0):
     """run the configurations on one ledger; write the 'ledger' line and the 'case' lines; returns the number of lines.
     n_nested: that many nested statements  SELECT .. FROM <co> WHERE account IN (SELECT account FROM <fi> <ci>)  with co, ci
     drawn from the configurations run before on this ledger (and the empty clause subset): TLC judges them against the
-    rows recorded for co and for ci"""
+    rows recorded for co and for ci.
+    n_doors: that many statements given through the shell (typed / command line) or run as a named query (.run, the query
+    directive dated on / around the ledger's dates), with the clauses of the configurations run before; TLC judges them as
+    the report of the clauses they present there"""
     import beanquery
     rng = ctx.rng
     kt = KeyTable()
@@ -809,14 +932,17 @@ def record_ledger(ctx, f, lid, entries, opts, configs, exact, print_every, filte
         return 0
     lines = []
 
-    def one(c, via, sub=NO_SUB):
+    def one(c, via, sub=NO_SUB, door=API):
         as_text = counters['statements'] % 20 == 0          # every 20th statement as text, the others as filled-in ASTs
+        if via == 'print':
+            door = SHELL
         st, fc = statement(via, c, ordinal_date, as_text, sub)
-        obs = RUNNERS[via](conn, st)
+        obs = RUNNERS[via](conn, st, fc, door, ordinal_date)
         counters['statements'] += 1
         counters['as_text'] += as_text
         counters['nested'] += bool(sub['on'])
-        ev = {'ev': 'case', 'lid': lid, 'id': counters['id'], 'c': c, 'sub': sub, 'via': via, 'err': obs.err or '',
+        counters['door:' + door['ep']] += via != 'print'
+        ev = {'ev': 'case', 'lid': lid, 'id': counters['id'], 'c': c, 'sub': sub, 'door': door, 'via': via, 'err': obs.err or '',
               'msg': obs.msg[:120], 'rows': [], 'text': fc}
         counters['id'] += 1
         if obs.err is None:
@@ -857,6 +983,21 @@ def record_ledger(ctx, f, lid, entries, opts, configs, exact, print_every, filte
         fi = some_filter(filters if not has_clauses(ci) else filters + ['none', 'none', 'none'])
         fo = some_filter(['none', 'none', 'none'] + filters)
         one(dict(co, filter=fo), 'select', {'on': True, 'c': dict(ci, filter=fi)})
+    around = dates + [dates[0] - 7, dates[-1] + 1, dates[-1] + 30]
+    for n in range(n_doors if based else 0):
+        c = rng.choice(based)
+        if rng.random() < 0.5:
+            door = SHELL
+        elif c['close'] > 0 and rng.random() < 0.6:       # the query directive carries the CLOSE date the statement leaves out
+            door = {'ep': 'run', 'q': c['close']}
+            c = dict(c, close=-1)
+        else:
+            door = {'ep': 'run', 'q': rng.choice(around)}
+        # a filter expression is judged against the recorded unfiltered case of the clauses presented
+        flt = some_filter(filters) if rng.random() < 0.35 else NO_FILTER
+        if not any(same_clauses(presented(dict(c, filter=flt), door), b) for b in based):
+            flt = NO_FILTER
+        one(dict(c, filter=flt), 'select', NO_SUB, door)
     f.write(json.dumps({'ev': 'ledger', 'lid': lid, 'exact': exact, 'kt': kt.rows, 'lp': lp, 'id': -1}) + '\n')
     for ev in lines:
         f.write(json.dumps(ev) + '\n')
@@ -877,7 +1018,8 @@ def validate_trace(ctx, path, nlines, what):
         if failed == ['err:TypeError'] and c['open'] > 0 and c['close'] == 0 and "'>' not supported" in ev['msg']:
             key = KNOWN_BARE
         else:
-            key = 'trace:%s:%s:%s:%s' % (ev['via'], case_key(ev), c['filter']['n'], ','.join(failed))
+            key = 'trace:%s:%s:%s:%s' % (door_key(ev['via'], door_of(ev) if ev['via'] != 'print' else API), case_key(ev),
+                                         c['filter']['n'], ','.join(failed))
         # the ledger line of that case, for the replay file
         led = next(json.loads(x) for x in lines if x.startswith('{"ev": "ledger"') and json.loads(x)['lid'] == ev['lid'])
         small = len(led['lp']) <= 400
@@ -907,14 +1049,15 @@ def c2s(ctx):
             configs = pick_configs(ctx.rng, entries, ctx.pick(8, 16))
             nled += 1
             nlines += record_ledger(ctx, f, nled, entries, opts, configs, False, ctx.pick(4, 4), ctx.pick(4, 4), counters,
-                                    n_nested=ctx.pick(4, 12))
+                                    n_nested=ctx.pick(4, 12), n_doors=ctx.pick(6, 16))
         n_example = counters['id']
         # seeded random ledgers
         for i in range(ctx.pick(32, 500)):
             entries = random_ledger(ctx.rng, ctx.rng.choice([0, 1, 3, 8, 20, 40, 60]), ctx.rng.choice([5, 30, 120]))
             configs = pick_configs(ctx.rng, entries, ctx.pick(12, 16))
             nled += 1
-            nlines += record_ledger(ctx, f, nled, entries, options(), configs, True, 3, 3, counters, n_nested=ctx.pick(5, 8))
+            nlines += record_ledger(ctx, f, nled, entries, options(), configs, True, 3, 3, counters, n_nested=ctx.pick(5, 8),
+                                    n_doors=ctx.pick(4, 8))
     with open(path) as f:
         for line in f:
             if line.startswith('{"ev": "case"'):
@@ -922,10 +1065,13 @@ def c2s(ctx):
                 if ev['rows']:
                     ctx.sample({'leg': 'C2S', 'from': ev['text'], 'via': ev['via'], 'rows': len(ev['rows']), 'first_rows': ev['rows'][:2]})
                     break
+    if not counters['door:shell'] or not counters['door:run']:
+        raise MachineryError('vacuity: no recorded statement through the shell / as a named query')
     ctx.case('c2s', n=counters['id'])
     ncases, nrej = validate_trace(ctx, path, nlines, 'example ledger + random ledgers')
     ctx.leg('C2S', ledgers=nled, cases=ncases, example_ledger_cases=n_example, statements=counters['statements'],
             submitted_as_text=counters['as_text'], nested_statements=counters['nested'],
+            through_the_shell=counters['door:shell'], run_as_named_query=counters['door:run'],
             rejected=nrej, lines=nlines)
 
 
@@ -934,13 +1080,14 @@ def c2s(ctx):
 # a whole breadth-first level (millions of states in the thorough tier); the search stays exhaustive
 LIFO = {'dfs': True, 'jvm': ('-Xmx4g',)}
 NESTED_STEPS = ('SubCollect', 'ApplyWhere')
-STEPS = ('Statement', 'Compile', 'OpenConversions', 'OpenTransfer', 'OpenSummarize', 'CloseTruncate', 'CloseConversions',
+HOOK_STEPS = ('Hook',)
+STEPS = ('Arrives', 'Compile', 'OpenConversions', 'OpenTransfer', 'OpenSummarize', 'CloseTruncate', 'CloseConversions',
          'ClearTransfer', 'ApplyFilter')
 
 
 def run(ctx):
     only = getattr(ctx, 'only_legs', None)
-    ctx.rule = ('S2C: one case = (ledger, OPEN arg, CLOSE arg, CLEAR, filter) emitted by TLC, distinct by construction; '
+    ctx.rule = ('S2C: one case = (ledger, OPEN arg, CLOSE arg, CLEAR, filter, entry point) emitted by TLC, distinct by construction; '
                 'non-trivial = at least one clause present and a non-empty ledger; C2S: one case = one statement run on an '
                 'example / random ledger, judged by TLC')
     ctx.assumptions += [
@@ -955,6 +1102,10 @@ def run(ctx):
         'standing in a subquery presents the report of the clauses written in it (the ledger itself for the empty subset), '
         'independently of the clauses of the enclosing statement; a subquery WITHOUT any FROM clause is outside the '
         'statement (never generated)',
+        '"every subset of the three clauses" holds whichever entry point the statement is given through: typed into the shell / '
+        'given on the bean-query command line it presents exactly the clauses written; a named query run with .run whose FROM '
+        'clause has no CLOSE presents them with CLOSE ON <date of its query directive> (the anchor shell.py "default close date '
+        'for named queries"); PRINT as a named query is not generated (the hook does not touch PRINT; the statement is silent)',
         'TLC 1.8, Json/IOUtils/SequencesExt community modules, beancount 3.x summarize as installed',
     ]
     # ---- MC
@@ -997,6 +1148,12 @@ def run(ctx):
             # statement ranges over the table of the subquery
             (refuted, ('MC_Summarize_inherit.cfg', 'ScopeInv'), dict(dfs=True)),
             (refuted, ('MC_Summarize_norestore.cfg', None), dict(dfs=True)),
+            # entry points: DB-API / shell / .run (query directive dated 1..5) x every clause subset; the parse hook of the shell
+            (holds, (ctx.pick('MC_Summarize_doors.cfg', 'MC_Summarize_doors_thorough.cfg'), 'MC'),
+             dict(workers=ctx.pick(6, 16), **LIFO)),
+            (holds, ('MC_Summarize_doors_cover.cfg', 'MC-coverage'), dict(must_cover=STEPS + HOOK_STEPS, workers=4)),
+            # the hook rebuilds the FROM clause and forgets CLEAR; the hook overrides a CLOSE that is written
+            (refuted, ('MC_Summarize_rebuilt.cfg', 'IncomeInv'), {}), (refuted, ('MC_Summarize_override.cfg', None), {}),
         ]
         import concurrent.futures
         with concurrent.futures.ThreadPoolExecutor(3) as pool:
@@ -1019,8 +1176,14 @@ def run(ctx):
             c = case['c']
             nontrivial = bool(case['ledger']) and (c['open'] > 0 or c['close'] >= 0 or c['clear'])
             sub = sub_of(case)
+            door = door_of(case)
             ctx.case(json.dumps([[[t['date'], [[p['k'], p['u'][0], p['pn']] for p in t['ps']]] for t in case['ledger']], c,
-                                 sub['c'] if sub['on'] else 0], sort_keys=True), nontrivial)
+                                 sub['c'] if sub['on'] else 0, [door['ep'], door['q']]], sort_keys=True), nontrivial)
+            if door['ep'] != 'api':
+                seen['door:' + door['ep']] += 1
+                seen['door:%s:%s' % (door['ep'], clause_key(c))] += 1
+                seen['door:%s:%s' % (door['ep'], case['status'])] += 1
+                continue
             if sub['on']:
                 seen['nested'] += 1
                 seen['nested:' + ('rejected' if case['status'] == 'rejected' else
@@ -1033,7 +1196,10 @@ def run(ctx):
         for need in ('plain', 'open', 'close', 'bare-close', 'clear', 'open+close', 'open+bare-close', 'open+clear', 'close+clear',
                      'bare-close+clear', 'open+close+clear', 'open+bare-close+clear', 'status:rejected', 'filter:ge',
                      'nested:filter-only', 'nested:own-clauses', 'nested:rejected', 'nested-in:plain', 'nested-in:open',
-                     'nested-in:close+clear', 'nested-in:open+close+clear'):
+                     'nested-in:close+clear', 'nested-in:open+close+clear') + tuple(
+                         'door:%s:%s' % (ep, k) for ep in ('shell', 'run') for k in (
+                             'plain', 'open', 'close', 'bare-close', 'clear', 'open+close', 'open+bare-close', 'open+clear',
+                             'close+clear', 'bare-close+clear', 'open+close+clear', 'open+bare-close+clear', 'rejected')):
             if not seen[need]:
                 raise MachineryError('vacuity: no generated case with %s' % need)
         ctx.sample({'leg': 'S2C', 'case': {k: cases[len(cases) // 2][k] for k in ('c', 'status', 'kept', 'tot', 'val')},
